@@ -3,7 +3,7 @@
    grid values are in half cells (1/240 degree; cell centres are odd), see Model/C20_srtm.v. *)
 From Coq Require Import ZArith List Bool String.
 From TyphonGen Require Import C20_tiles.
-From Typhon Require Import Model.C20_srtm Proofs.C20_srtm.
+From Typhon Require Import Model.C20_srtm Proofs.C20_srtm Model.C20_margin Proofs.C20_margin.
 Import ListNotations.
 Open Scope Z_scope.
 
@@ -74,6 +74,40 @@ Theorem download_iff_absent : forall init reqs,
     Some (name, negb (cached init name || cached (firstn k reqs) name)).
 Proof. exact cache_law. Qed.
 
+(* ---- robustness of the index arithmetic against perturbations of the corners (what binary64 rounding of the
+   inputs can and cannot do).  A coordinate is n / D degrees; cell edges are the multiples of 1/120 degree.
+
+   If every corner of r' lies strictly inside the same cell as the corresponding corner of r, both rectangles get
+   the same block, the same mosaic (for any tile contents) and the same tile requests: *)
+Theorem same_cells_same_mosaic : forall r r', in_coverage r -> 0 < rD r' -> rect_same_cells r r' ->
+  native_lats r' = native_lats r /\ native_lons r' = native_lons r /\
+  (forall dem, elevation dem r' = elevation dem r) /\ elevation_tiles r' = elevation_tiles r.
+Proof. exact same_cells_same_block. Qed.
+
+(* The margin, for ANY margin 1/M degree: if every corner of r is farther than 1/M degree from every cell edge
+   (off_edges: for all k, |n/D - k/120| > 1/M) and r' moves every corner by at most 1/M degree (any denominators),
+   then r' gets the same block, mosaic and tile requests as r -- and that block still covers r tightly.  So away
+   from the edges rounding the inputs (or any other error up to the margin) cannot change the answer. *)
+Theorem robust_margin : forall M r r', 0 < M -> in_coverage r -> rect_off_edges M r -> rect_within M r r' ->
+  native_lats r' = native_lats r /\ native_lons r' = native_lons r /\
+  (forall dem, elevation dem r' = elevation dem r) /\ elevation_tiles r' = elevation_tiles r /\
+  grid_ok r (native_lats r') (native_lons r') = true.
+Proof. exact robust_margin_covers. Qed.
+
+(* the decided form of the hypothesis (two neighbouring edges only) that the harness evaluates per case with
+   M = margin40 = 2^40 means exactly "farther than 1/M degree from every edge" *)
+Theorem off_edges_decided : forall M r, 0 < M -> 0 < rD r -> rect_off_edges_b M r = true <-> rect_off_edges M r.
+Proof. exact rect_off_edges_b_spec. Qed.
+
+(* the hypothesis cannot be dropped: with a corner ON an edge (lat_min = 10) a perturbation of 2^-41 degree, inside
+   the margin 2^-40, adds a row *)
+Theorem margin_hypothesis_needed :
+  let r := mkRect 1 10 10 11 11 in
+  let r' := mkRect (2 ^ 41) (10 * 2 ^ 41 - 1) (10 * 2 ^ 41) (11 * 2 ^ 41) (11 * 2 ^ 41) in
+  in_coverage r /\ rect_within_b margin40 r r' = true /\ rect_off_edges_b margin40 r = false /\
+  List.length (native_lats r) = 120%nat /\ List.length (native_lats r') = 121%nat.
+Proof. exact margin_needed. Qed.
+
 (* the arithmetic of the tree as found does NOT have these properties (DESIGN section 6, #18 and #19);
    the witnesses, replayed on the implementation, are the findings repaired by fixes/C20_1 and C20_2 *)
 Theorem native_lats_asis_refuted :
@@ -101,6 +135,16 @@ Example nonvacuous :
   snd (run_cache ["a"]%string ["b"; "a"; "b"]%string) = [("b", true); ("a", false); ("b", false)]%string.
 Proof. vm_compute. repeat split; try reflexivity; try discriminate. Qed.
 
+(* non-vacuity of robust_margin: the rectangle a user means by (10.1234, 0.3333, 10.3456, 0.6667) and the rectangle
+   of the four doubles Python makes of these decimals: every corner of the first is farther than 2^-40 degree from
+   every cell edge, the doubles differ from the decimals by less than 2^-40 degree, the block is 28 x 42 cells *)
+Example robust_margin_nonvacuous :
+  let r := mkRect 10000 101234 3333 103456 6667 in
+  let r' := mkRect (2 ^ 54) 182366961870889920 6004199023210345 186369761219696800 12010199486271638 in
+  in_coverage r /\ rect_off_edges_b margin40 r = true /\ rect_within_b margin40 r r' = true /\ r <> r' /\
+  native_lats r' = native_lats r /\ List.length (native_lats r) = 28%nat /\ List.length (native_lons r) = 42%nat.
+Proof. vm_compute. repeat split; try reflexivity; try discriminate. Qed.
+
 Print Assumptions table_well_formed.
 Print Assumptions grid_covers_tightly.
 Print Assumptions lat_checker_meaning.
@@ -111,5 +155,9 @@ Print Assumptions tiles_exact.
 Print Assumptions tiles_named_once.
 Print Assumptions native_of_tile_bounds.
 Print Assumptions download_iff_absent.
+Print Assumptions same_cells_same_mosaic.
+Print Assumptions robust_margin.
+Print Assumptions off_edges_decided.
+Print Assumptions margin_hypothesis_needed.
 Print Assumptions native_lats_asis_refuted.
 Print Assumptions get_tiles_asis_refuted.
